@@ -18,7 +18,7 @@ let int_of_z = function Z0 -> 0 | Zpos p -> int_of_pos p | Zneg p -> - (int_of_p
 
 let parse_kind s =
   match s.[0] with
-  | 'c' | 'b' -> KDone
+  | 'c' | 'b' | 'g' -> KDone   (* g: the harness' gate task (blocks its thread until released, then completes) *)
   | 'p' -> KPend
   | 'x' -> KPanic
   | 'e' -> KStopSys (z_of_int (int_of_string (String.sub s 1 (String.length s - 1))))
